@@ -149,7 +149,8 @@ COQPROJECT_HEADER = """-Q . TV
 def write_coqproject():
     """_CoqProject = header + every .v under coq/ (hand-written) + gen/<OUT> of every translator."""
     files = sorted(str(p.relative_to(COQSRC)) for p in COQSRC.rglob("*.v") if "gen" not in p.relative_to(COQSRC).parts[:1])
-    gens = sorted("gen/" + o for o in translator_outputs().values())
+    # gen/Gen_stim_vocab.v is written at run time by the C12 check (probe of the installed Stim), not by a translator
+    gens = sorted({"gen/" + o for o in translator_outputs().values()} | {"gen/Gen_stim_vocab.v"})
     write_if_changed(COQBUILD / "_CoqProject", COQPROJECT_HEADER + "\n".join(gens + files) + "\n")
 
 
